@@ -324,6 +324,12 @@ fn fals_complete<C: Cfg>(r: &mut Rng, i: usize, thorough: bool, f: &mut Fals) {
     };
     let v = run_verifier::<C>(proof.clone(), cs.clone(), ins.p.domain, ins.p.blowup, ins.p.nfold, ins.p.remmax, ins.maxdeg, &at, &ins.positions);
     if v != "ok" { f.fail("fri_complete: honest proof rejected", &input, "ok", &v); }
+    // accessors of the proof object
+    f.evals += 1;
+    if proof.num_layers() != opts.num_fri_layers(ins.p.domain) || proof.size() < proof.to_bytes().len().saturating_sub(8 * proof.num_layers() + 8)
+        || FriProof::new_dummy().num_layers() != 0 || FriProof::new_dummy().size() != 3 {
+        f.fail("FriProof accessors (num_layers / size / new_dummy) inconsistent with the schedule", &input, "num_layers = num_fri_layers(domain)", &format!("{} {}", proof.num_layers(), proof.size()));
+    }
     // serialization round trip
     f.evals += 1;
     let bytes = proof.to_bytes();
